@@ -2,6 +2,7 @@ package files
 
 import (
 	"bytes"
+	"context"
 	"fmt"
 	"sort"
 
@@ -64,10 +65,14 @@ func newDirFile(p *fakePool, logger *recordingErrorLogger, nfs bool, share virtu
 // uploadVia uploads the file: through the build directory if there is one,
 // else through ApplyUploadFile on the leaf.
 func uploadVia(bd builder.BuildDirectory, leaf virtual.LinkableLeaf, cas *fakeCAS, fn digest.Function, delay <-chan struct{}) (digest.Digest, error) {
+	return uploadViaCtx(ctx, bd, leaf, cas, fn, delay)
+}
+
+func uploadViaCtx(ctx context.Context, bd builder.BuildDirectory, leaf virtual.LinkableLeaf, cas *fakeCAS, fn digest.Function, delay <-chan struct{}) (digest.Digest, error) {
 	if bd != nil {
 		return bd.UploadFile(ctx, dirFileName, fn, delay)
 	}
-	return uploadFile(leaf, cas, fn, delay)
+	return uploadFileCtx(ctx, leaf, cas, fn, delay)
 }
 
 // checkUploadStored is the upload oracle for callers that may legitimately
@@ -212,9 +217,10 @@ func dirSeqOps() []mc.SeqOp {
 		seqOp("allocate [2,5)", canWrite, func(s *seqState) { s.opAllocate(false) }),
 		seqOp("chmod", nil, (*seqState).opChmod),
 		seqOp("link", nil, (*seqState).opLink),
-		seqOp("upload sha256", nil, func(s *seqState) { s.opUpload(sha256Fn, false) }),
-		seqOp("upload md5", nil, func(s *seqState) { s.opUpload(md5Fn, false) }),
-		seqOp("upload sha256 (pool read error)", nil, func(s *seqState) { s.opUpload(sha256Fn, true) }),
+		seqOp("upload sha256", nil, func(s *seqState) { s.opUpload(sha256Fn, false, false) }),
+		seqOp("upload md5", nil, func(s *seqState) { s.opUpload(md5Fn, false, false) }),
+		seqOp("upload sha256 (pool read error)", nil, func(s *seqState) { s.opUpload(sha256Fn, true, false) }),
+		seqOp("upload sha256 (cancelled context)", nil, func(s *seqState) { s.opUpload(sha256Fn, false, true) }),
 		seqOp("stat", nil, func(s *seqState) { s.opStat(false) }),
 	}
 }
